@@ -260,7 +260,10 @@ fn check_seq_via(cfg: &Cfg, ops: &[Op], via: Option<(usize, Via)>, out: &mut Job
                 out.stats.nontrivial += 1;
             }
             if let Some((i, got, why)) = bad {
-                let mut v = Violation::new(PROP, cfg, &ops[..=i], "composite-differs-from-parts").obs(out2s(&got)).exp("the documented combination of separately constructed public parts".into()).det(why);
+                // long generated streams: the artefact carries the last 64 operations and the step number
+                let shown = if i >= 100_000 { &ops[i - 63..=i] } else { &ops[..=i] };
+                let why = if i >= 100_000 { format!("{} [step {} of a generated stream; ops shown = the last 64]", why, i + 1) } else { why };
+                let mut v = Violation::new(PROP, cfg, shown, "composite-differs-from-parts").obs(out2s(&got)).exp("the documented combination of separately constructed public parts".into()).det(why);
                 if let Some((at, how)) = via {
                     v.detail.push_str(&if at == usize::MAX { format!(" [the composite was {} right before every reset()]", how.text()) } else { format!(" [the composite was {} before input {}]", how.text(), at + 1) });
                     v.extra.insert("checkpoint".into(), format!("{}@{}", how.tag(), at));
@@ -343,7 +346,7 @@ pub fn run(ctx: &Ctx) -> CheckResult {
     let mut jobs: Vec<(Cfg, Vec<Op>, usize)> = vec![];
     let singles = [1usize, 2, 3, 5, 14];
     for &n in &singles {
-        for m in [2.0, 0.0, 0.5, 3.0] {
+        for m in [2.0, 0.0, 0.5, 3.0, 2.618] {
             let side = m != 2.0;
             jobs.push((Cfg::pm(Kind::Bb, n, m), scal_ops.clone(), if side { ds - 2 } else { ds }));
             jobs.push((Cfg::pm(Kind::Kc, n, m), scal_ops.clone(), if side { ds - 2 } else { ds - 1 }));
@@ -521,6 +524,22 @@ pub fn run(ctx: &Ctx) -> CheckResult {
         });
         res.absorb(merge_jobs(outs));
     }
+    // long horizon: one instance fed past 2^22 inputs (periodic maintenance code inside a part - "rebuild
+    // every 2^20 updates" - runs for the first time there), every step compared
+    if !res.out.failed() {
+        let h = super::refcmp::horizon_len(th);
+        let ws = super::refcmp::tick_walk(h, ctx.seed ^ 0x15, false, true, false);
+        let wb = super::refcmp::tick_walk(h, ctx.seed ^ 0x15, true, true, false);
+        let hz: Vec<Cfg> = vec![Cfg::pm(Kind::Bb, 20, 2.0), Cfg::pm(Kind::Bb, 9, 2.618), Cfg::pm(Kind::Kc, 14, 2.0), Cfg::pm(Kind::Ce, 22, 3.0), Cfg::p1(Kind::Atr, 14), Cfg::p1(Kind::Cci, 20), Cfg::p2(Kind::SlowStoch, 14, 3), Cfg::p3(Kind::Macd, 12, 26, 9), Cfg::p3(Kind::Ppo, 12, 26, 9)];
+        let outs = par_run(ctx, &hz, |_, cfg| {
+            let mut out = JobOut::default();
+            let bars = !(cfg.kind.has_scalar() && !cfg.kind.bar_native());
+            check_seq(cfg, if bars { &wb[..] } else { &ws[..] }, &mut out);
+            out
+        });
+        res.extra.insert("long_horizon_steps".into(), json!(h));
+        res.absorb(merge_jobs(outs));
+    }
     if !res.out.failed() {
         let mut o = JobOut::default();
         check_defaults(&mut o);
@@ -528,6 +547,6 @@ pub fn run(ctx: &Ctx) -> CheckResult {
     }
     res.extra.insert("composite_configurations".into(), json!(jobs.len()));
     res.rule = "case = (composite configuration, stream): the real composite and separately constructed public parts (SMA, SD, EMA, FastStochastic, TrueRange, ATR, Minimum, Maximum, MAD) are fed the same stream; at every step the composite's outputs must equal the documented combination of the parts within tau(t)*M (variances for the Bollinger half-width, times the condition number for CCI/PPO, gated at 1e6); non-trivial = stream longer than the window".into();
-    res.bounds = format!("BB/KC/CE periods {singles:?} x multipliers {{2,0,0.5,3}}, ATR, CCI, SLOW_STOCH (n x {{1,3}}), MACD/PPO over 6 period triples; all 9^{ds} mixed-sign/rough scalar streams and all 10^{db} valid-bar streams, all 6^(depth+1) streams mixing scalars and bars on one instance for ATR/KC/SLOW_STOCH/BB/MACD, all 10^(depth-1) streams of unvalidated bars for SLOW_STOCH/KC/CE/ATR/CCI (BB, MACD and PPO are driven with bars as well as scalars; streams with reset(), composite and parts reset together) (side multipliers 1-2 levels shallower); the positive scalar / bar alphabets in a 2^-60 price unit for periods {{1,2,3,5}}; periods 9, 14, 20, 64, 257 and the documented defaults on two default streams of 3n+5 inputs, also with the composite serialized + restored / cloned at 5 positions");
+    res.bounds = format!("BB/KC/CE periods {singles:?} x multipliers {{2,0,0.5,3,2.618}}, ATR, CCI, SLOW_STOCH (n x {{1,3}}), MACD/PPO over 6 period triples; all 9^{ds} mixed-sign/rough scalar streams and all 10^{db} valid-bar streams, all 6^(depth+1) streams mixing scalars and bars on one instance for ATR/KC/SLOW_STOCH/BB/MACD, all 10^(depth-1) streams of unvalidated bars for SLOW_STOCH/KC/CE/ATR/CCI (BB, MACD and PPO are driven with bars as well as scalars; streams with reset(), composite and parts reset together) (side multipliers 1-2 levels shallower); the positive scalar / bar alphabets in a 2^-60 price unit for periods {{1,2,3,5}}; periods 9, 14, 20, 64, 257 and the documented defaults on two default streams of 3n+5 inputs, also with the composite serialized + restored / cloned at 5 positions; one tick-grid walk of 2^22+4096 (thorough 2^23+4096) inputs per composite family, every step compared");
     res
 }
